@@ -664,7 +664,8 @@ pub fn gen_harmless_invalid(rng: &mut Rng, tag: u8) -> Prog {
 
 pub fn gen_unsafe(rng: &mut Rng, tag: u8) -> Prog {
     let mut p = gen_const(rng, tag);
-    match rng.below(3) {
+    match rng.below(4) {
+        3 => p.bytes.clear(), // the empty program
         0 => {
             let l = p.bytes.len();
             p.bytes.truncate(l - 4); // not a whole number of instructions
@@ -819,6 +820,7 @@ fn ld_opcode(base: u8, w: u8) -> u8 {
 /// width, so the probe is only ever run on packets of at least idx + 8 bytes.
 pub fn gen_probe_pkt_abs(tag: u8, idx: usize, w: u8) -> Prog {
     let mut b = B::new(tag);
+    b.i(MOV64_IMM, 0, 0, 0, -1); // the load must replace all of r0, not only its low bytes
     b.i(ld_opcode(LD_ABS_B, w), 0, 0, 0, idx as i32);
     b.trailer(tag);
     let mut p = mk(b.v, tag, Class::ProbePktAbs);
@@ -828,10 +830,11 @@ pub fn gen_probe_pkt_abs(tag: u8, idx: usize, w: u8) -> Prog {
     p
 }
 
-pub fn gen_probe_pkt_ind(tag: u8, idx: usize, regval: usize, w: u8) -> Prog {
+pub fn gen_probe_pkt_ind(tag: u8, idx: usize, regval: usize, w: u8, src: u8) -> Prog {
     let mut b = B::new(tag);
-    b.i(MOV64_IMM, 3, 0, 0, regval as i32);
-    b.i(ld_opcode(LD_IND_B, w), 0, 3, 0, idx as i32);
+    b.i(MOV64_IMM, 0, 0, 0, -1);
+    b.i(MOV64_IMM, src, 0, 0, regval as i32);
+    b.i(ld_opcode(LD_IND_B, w), 0, src, 0, idx as i32);
     b.trailer(tag);
     let mut p = mk(b.v, tag, Class::ProbePktInd);
     p.p0 = idx as i64;
